@@ -116,3 +116,27 @@ Qed.
 Lemma simplest_in_pinned_refuted :
   simplest_in_pinned_shortcut (-1, 2) (0, 1) = true /\ simplest_in_spec (-1, 2) (0, 1) = Ok (-1, 3).
 Proof. split; vm_compute; reflexivity. Qed.
+
+(** equal end points: the end point itself (in lowest terms) *)
+Lemma simplest_in_spec_equal : forall l u, fval_eq l u -> simplest_in_spec l u = Ok (freduce l).
+Proof. intros l u E. unfold simplest_in_spec, feq. unfold fval_eq in E. rewrite (proj2 (Z.eqb_eq _ _) E). reflexivity. Qed.
+
+Theorem simplest_in_asis_equal : forall l u, 0 < snd l -> 0 < snd u -> fval_eq l u ->
+  simplest_in_asis l u = Ok (freduce l).
+Proof. intros l u Hl Hu E. rewrite simplest_in_asis_spec by assumption. apply simplest_in_spec_equal, E. Qed.
+
+(** the headline statement for the as-is model: for distinct end points (either order, any
+    signs) the code returns a canonical fraction strictly between them than which nothing strictly
+    between is simpler - no panic, no OutOfFuel *)
+Theorem simplest_in_asis_optimal : forall l u, 0 < snd l -> 0 < snd u -> ~ fval_eq l u ->
+  exists r, simplest_in_asis l u = Ok r /\ Z.gcd (fst r) (snd r) = 1 /\
+    ((fval_lt l u /\ simplest_between l u r) \/ (fval_lt u l /\ simplest_between u l r)).
+Proof. intros l u Hl Hu Hne. rewrite simplest_in_asis_spec by assumption. apply simplest_in_spec_correct; assumption. Qed.
+
+Example simplest_in_examples :
+  simplest_in_asis (1234, 5678) (1235, 5679) = Ok (5, 23) /\
+  simplest_in_asis (-1, 2) (0, 1) = Ok (-1, 3) /\
+  simplest_in_asis (3, 1) (-2, 1) = Ok (0, 1) /\
+  simplest_in_asis (7, 2) (7, 2) = Ok (7, 2) /\
+  simplest_in_asis (6, 1) (5, 1) = Ok (11, 2).
+Proof. repeat split; vm_compute; reflexivity. Qed.
